@@ -379,6 +379,34 @@ ILLEGAL = [
 ]
 
 
+def _near_misses():
+    """Values that look like a legal value of an enumerated attribute but are not one (reference.rst lists the
+    legal values of intent, deref, owner and api): a legal value with a character missing at either end, a
+    single leading character, an extra character, two legal values in one, nothing at all."""
+    res = []
+    for attr, legal, site in (("intent", ["in", "out", "inout"], "void func(int *a +intent(%s))"),
+                              ("intent", ["in", "out", "inout"], "void func(const std::string &a +intent(%s))"),
+                              ("deref", ["allocatable", "pointer", "raw", "scalar"], "int *func() +deref(%s)"),
+                              ("deref", ["allocatable", "pointer", "raw", "scalar"], "void func(int **a +intent(out)+deref(%s))"),
+                              ("owner", ["caller", "library"], "int *func() +owner(%s)"),
+                              ("api", ["buf", "capi", "cfi"], "void func(const char *a +api(%s))")):
+        near = []
+        for v in legal:
+            near += [v[:-1], v[1:], v[:1], v + "x", v + v]
+        near += ["", "%s %s" % (legal[0], legal[1])]
+        seen = set()
+        for v in near:
+            if v.lower() in legal or v in seen:
+                continue
+            seen.add(v)
+            res.append(("%s-near-miss:%s:%s" % (attr, site.split("(")[0].split()[-1] + ("-arg" if "a +" in site else "-result"), v or "empty"),
+                        site % v))
+    return res
+
+
+ILLEGAL += _near_misses()
+
+
 def yaml_for_decl(site_text, wrappers):
     decls = []
     if site_text.startswith("GENERIC|"):
